@@ -40,9 +40,12 @@ def run(ctx):
     ctx.assumptions += ["NoColl on all states a run touches"]
     ctx.prove(extra=["PathRun"])
     coq_cases, metas = [], []
-    for _ in range(ctx.budget(45, 400)):
+    for gi_ in range(ctx.budget(45, 400)):
         gd = P.gen_invertible_graph(rng, ctx.budget(300, 2500))
         cfgd = G.gen_config(rng, gd)
+        stress = gi_ % 4 == 3
+        if stress:
+            cfgd["batch_size"] = rng.choice([1, 2, 3])       # the internal BFS runs batched ...
         graph = G.make_graph(gd, cfgd)
         ic = bool(graph.definition.generators_inverse_closed)
         layers, dist = G.ref_bfs(gd, [gd["central"]])
@@ -60,6 +63,11 @@ def run(ctx):
         ecc = len(layers) - 1
         depth = rng.choice([1, 1, 2, 3, max(1, ecc // 2), ecc + 1, None])
         explore = rng.choice([None, None, 3, 10])
+        if stress and len(layers) >= 4:
+            # ... and is cut by the size limit exactly at / just below the size of a later layer (the limit is reached part-way through the batches)
+            depth = None
+            explore = max(2, rng.choice([len(l) for l in layers[2:]]) - rng.choice([0, 0, 1]))
+            ctx.count("stress_batched_size_limited")
         kw = {}
         if depth is not None:
             kw["max_diameter"] = depth
